@@ -55,6 +55,29 @@ func TestVerifBounded_C20_Resolvers(t *testing.T) {
 			report(fmt.Sprintf("c20-char:%d", c), fmt.Sprintf("ValidTenantID(%q) accepted=%v, documented set says %v", s, ValidTenantID(s) == nil, verifAccepted(s)))
 		}
 	}
+	// all pairs of bytes, and every code point up to U+FFFF (plus a sample of the astral planes) in its UTF-8 encoding,
+	// alone and between safe characters: multi-byte characters are never safe, whatever their low byte is
+	for c := 0; c < 65536; c++ {
+		cases++
+		s := string([]byte{byte(c >> 8), byte(c)})
+		if (ValidTenantID(s) == nil) != verifAccepted(s) {
+			report(fmt.Sprintf("c20-pair:%q", s), fmt.Sprintf("ValidTenantID(%q) accepted=%v, documented set says %v", s, ValidTenantID(s) == nil, verifAccepted(s)))
+		}
+	}
+	for r := rune(0x80); r <= 0x10FFFF; r++ {
+		if r > 0xFFFF && r%257 != 0 {
+			continue
+		}
+		if r >= 0xD800 && r <= 0xDFFF {
+			continue
+		}
+		for _, s := range []string{string(r), "a" + string(r) + "b"} {
+			cases++
+			if ValidTenantID(s) == nil {
+				report(fmt.Sprintf("c20-rune:U+%04X", r), fmt.Sprintf("ValidTenantID(%q) accepted an identifier with a character outside the documented safe set", s))
+			}
+		}
+	}
 	for _, n := range []int{149, 150, 151} {
 		cases++
 		s := strings.Repeat("a", n)
@@ -125,7 +148,7 @@ func TestVerifBounded_C20_Resolvers(t *testing.T) {
 	if _, err := TenantIDs(context.Background()); err != user.ErrNoOrgID {
 		report("c20-missing-multi", fmt.Sprint(err))
 	}
-	fmt.Printf("BOUNDED-CASES name=C20_Resolvers n=%d distinct=%d bound=all byte strings of length<=%d over a %d-byte alphabet (incl. separators, NUL, 0x80) + all 256 single bytes + lengths 149..151; oracles transcribed from the property statement\n", cases, cases, maxLen, len(alpha))
+	fmt.Printf("BOUNDED-CASES name=C20_Resolvers n=%d distinct=%d bound=all byte strings of length<=%d over a %d-byte alphabet (incl. separators, NUL, 0x80) + all 256 single bytes + all byte pairs + every code point up to U+FFFF in UTF-8 + lengths 149..151; oracles transcribed from the property statement\n", cases, cases, maxLen, len(alpha))
 	if fails > 0 {
 		t.Fatalf("%d mismatches", fails)
 	}
